@@ -229,14 +229,19 @@ let c19_oracle (ops : op list) (obs : string list) : string =
   if List.length ops <> List.length obs then "fail observation-shape" else
   (* records with a flag: must it be present?  (written while no fault was pending) *)
   let recs = ref [] and pending = ref false and cfg = ref None and live = ref false in
-  let panic = ref false and last = ref None and never = ref true in
+  let panic = ref false and last = ref None and never = ref true and armed = ref false in
   List.iter2 (fun op ob ->
       if ob = "r2" || ob = "l2[]" then panic := true;
       match op with
       | OStart c -> cfg := Some c; live := true;
         (match c.c_rot with Some ((_, _), KNever) | None -> () | _ -> never := false)
-      | OSetFaults l -> pending := (l <> [])
-      | OWrite b | OPlain b -> if !live then recs := (b, not !pending) :: !recs
+      | OSetFaults l -> pending := (l <> []); if l <> [] then armed := true
+      | OWrite b | OPlain b ->
+        (* in a buffered mode the write of a record happens when the buffer is flushed: a record accepted before the
+           failures begin may still be in the buffer when they strike, so only the records of the recovery phase
+           (and, in direct mode, those before the first failure) are known to have had a successful write *)
+        let buffered = (match !cfg with Some c -> c.c_cap <> None | None -> false) in
+        if !live then recs := (b, (not !pending) && (!armed || not buffered)) :: !recs
       | OStop -> live := false
       | OSnap -> if is_snapshot ob then last := Some ob
       | _ -> ()) ops obs;
